@@ -179,8 +179,8 @@ def rule_graph_construction(F, ctx):
         if not ok:
             ctx.violation("recursion::build_extended_dependency_graph:R-C34-e:%s-edge" % variant.lower(), "a %s body atom is not recorded as a %s dependency edge: recursion through negation is not seen by the stratification check" % (variant.lower(), want), b.where(mm[variant]))
     a = F.fn("recursion::DependencyGraph::add_edge")
-    dep = a.local_named("dep_type")
-    to_l = a.local_named("to")
+    dep = a.need_local("dep_type")
+    to_l = a.need_local("to")
     pushes = [c for c in a.normal_calls() if re.search(r"Vec::<\(std::string::String, recursion::DependencyType\)>::push$", c.static_args or "")]
     ok = bool(pushes) and dep is not None
     if ok:
